@@ -54,6 +54,13 @@ Facts(m) ==
          \* then meets that edge in its two end points only: the arc bulges poleward between them)
          flat |-> [ j \in 1..Len(F) |-> { PosOf(crit, LatOfCorner(EdgeA(F[j], i))) :
                         i \in { e \in 1..Len(F[j]) : LatCmp(EdgeA(F[j], e), EdgeB(F[j], e)) = 0 /\ EdgeA(F[j], e)[3] # 0 } } ],
+         \* per face: positions p such that a bulging edge of the face has exactly its poleward end at latitude crit[p]:
+         \* the parallel through that end crosses the same edge once more (between its extreme and its other end)
+         reenter |-> [ j \in 1..Len(F) |->
+                        { PosOf(crit, LatOfCorner(IF LatCmp(EdgeA(F[j], i), EdgeB(F[j], i)) > 0 THEN EdgeA(F[j], i) ELSE EdgeB(F[j], i))) :
+                              i \in { e \in 1..Len(F[j]) : BulgeN(F[j], e) /\ LatCmp(EdgeA(F[j], e), EdgeB(F[j], e)) # 0 } }
+                        \cup { PosOf(crit, LatOfCorner(IF LatCmp(EdgeA(F[j], i), EdgeB(F[j], i)) < 0 THEN EdgeA(F[j], i) ELSE EdgeB(F[j], i))) :
+                              i \in { e \in 1..Len(F[j]) : BulgeS(F[j], e) /\ LatCmp(EdgeA(F[j], e), EdgeB(F[j], e)) # 0 } } ],
          \* per face: positions of the interior extremes of its bulging edges
          tops |-> [ j \in 1..Len(F) |-> { PosOf(crit, LatOfTop(EdgeA(F[j], i), EdgeB(F[j], i))) : i \in { e \in 1..Len(F[j]) : BulgeN(F[j], e) } }
                                         \cup { PosOf(crit, LatOfBottom(EdgeA(F[j], i), EdgeB(F[j], i))) : i \in { e \in 1..Len(F[j]) : BulgeS(F[j], e) } } ],
